@@ -35,7 +35,7 @@ ATTRS = {
     "Model": ["imports", "items"],
     "Def": ["name", "v", "tag"],
     "Box": ["name", "items"],
-    "Use": ["name", "refs", "one", "opt", "alt"],
+    "Use": ["name", "refs", "one", "opt", "alt", "more"],
     "Wrap": ["inner", "e"],      # container of a *scalar* containment attribute
     "Inner": ["name"],           # contained through a scalar attribute (parent = the Wrap)
     "Import": ["importURI"],
@@ -586,15 +586,16 @@ def _target_obj(env, ent):
 
 
 def _check_use_kwargs(ctx, env, ent, kw, cfgcls):
-    lst = [r for r in ent.refs if r.attr == "refs"]
-    exp = [_target_obj(env, r.target) for r in lst]
-    got = kw.get("refs")
-    if not isinstance(got, list) or any(type(x).__name__ in ("ObjCrossRef", "Postponed") for x in got):
-        ctx.violate("C14", "references-resolved", cfgcls, f"{ent.sid()}.__init__ refs = {got!r}")
-    elif sorted(map(id, got)) != sorted(map(id, exp)):
-        ctx.violate("C14", "references-resolved", cfgcls,
-                    f"{ent.sid()}.__init__ refs = {[getattr(x, 'name', x) for x in got]}, "
-                    f"expected (any order) {[getattr(x, 'name', x) for x in exp]}")
+    for la in ("refs", "more"):
+        lst = [r for r in ent.refs if r.attr == la]
+        exp = [_target_obj(env, r.target) for r in lst]
+        got = kw.get(la)
+        if not isinstance(got, list) or any(type(x).__name__ in ("ObjCrossRef", "Postponed") for x in got):
+            ctx.violate("C14", "references-resolved", cfgcls, f"{ent.sid()}.__init__ {la} = {got!r}")
+        elif sorted(map(id, got)) != sorted(map(id, exp)):
+            ctx.violate("C14", "references-resolved", cfgcls,
+                        f"{ent.sid()}.__init__ {la} = {[getattr(x, 'name', x) for x in got]}, "
+                        f"expected (any order) {[getattr(x, 'name', x) for x in exp]}")
     for attr in ("one", "opt", "alt"):
         rr = [r for r in ent.refs if r.attr == attr]
         val = kw.get(attr)
